@@ -168,6 +168,27 @@ pub fn run(ctx: &mut Ctx) {
     let (rp, rpd, _x, _y) = rp_decoded(ctx);
     let (rp2, rpd2, _, _) = rp_decoded(ctx);
     let mut idx = 0usize;
+    // honest prover whose blinding factor for one digit (draw 4j: bf, tbf, t, r per digit) is solved against the range
+    // key: bf = -(x + y d_j) makes that digit's shown sigma2' the identity, bf = 1 - (x + y d_j) makes it equal sigma1'
+    for (k, j) in [0usize, 4, 8, 3].iter().enumerate() {
+        idx += 1;
+        if !ctx.begin_case(200_000 + idx, "range-honest-solved-blinding-factor") { continue; }
+        let value: i64 = (ctx.prng.gen::<u64>() >> 1) as i64;
+        let d = Scalar::from(((value as u64) >> (7 * j)) & 127);
+        let e = _x + _y * d;
+        let mut f: Vec<Scalar> = (0..4 * j).map(|_| rand_scalar(&mut ctx.prng)).collect();
+        f.push(if k % 2 == 0 { -e } else { Scalar::one() - e });
+        ctx.forced_next = f;
+        if let Some(run) = range_honest(ctx, &rp, &rpd, value, None) {
+            let expected = run.c * Scalar::from(value as u64) + run.commitment_scalar;
+            ctx.count("range-honest:solved-blinding-factor");
+            let _ = range_verify_check(ctx, &rp, &rpd, &run.proofs, &run.c, &expected, Some(true), "honest-solved-blinding-factor");
+            if !run.constraint.verify_range_constraint(&rp, chal(&run.c), expected) {
+                ctx.violation(&format!("honest range constraint for {} rejected when digit {}'s blinding factor is solved against the range key", value, j), json!({"class": "honest-range-rejected-solved-bf", "value": value, "digit": j}));
+            }
+        }
+        ctx.forced_next.clear();
+    }
     // A/B: honest prover on boundary values and negatives
     let mut vals = boundary_values(ctx);
     if ctx.thorough() {
@@ -221,8 +242,32 @@ pub fn run(ctx: &mut Ctx) {
                             _ => { ps[j].cp.t += d; ps[k].cp.t -= d; }
                         }
                         let _ = range_verify_check(ctx, &rp, &rpd, &ps, &run.c, &expected, Some(false), &format!("compensating-pair-{}", ["sigma1", "sigma2", "commitment", "scalar-commitment"][role]));
+                        // ... and in a way that cancels in a batch with deterministic public weights (one family per pair, rotating)
+                        let fams = pair_weights(j, k, 9, Some(&run.c));
+                        let (fam, wj, wk) = fams[p % fams.len()];
+                        let mut ps = run.proofs.clone();
+                        match role {
+                            0 => { ps[j].s1 += wk * d; ps[k].s1 -= wj * d; if ps[j].s1 == Scalar::zero() || ps[k].s1 == Scalar::zero() { continue; } }
+                            1 => { ps[j].s2 += wk * d; ps[k].s2 -= wj * d; }
+                            2 => { ps[j].cp.c += wk * d; ps[k].cp.c -= wj * d; }
+                            _ => { ps[j].cp.t += wk * d; ps[k].cp.t -= wj * d; }
+                        }
+                        ctx.count(&format!("weighted-compensating-pair:{}", fam));
+                        let _ = range_verify_check(ctx, &rp, &rpd, &ps, &run.c, &expected, Some(false), &format!("weighted-compensating-pair-{}", ["sigma1", "sigma2", "commitment", "scalar-commitment"][role]));
                     }
                 }
+            }
+            // aliasing: digit proof k shows a copy of digit proof j's blinded signature (alone, and with k's response
+            // scalar then chosen freely and the expected link adjusted to it)
+            for t in 0..(if ctx.thorough() { 36 } else { 6 }) {
+                let (j, k) = if t == 0 { (0usize, 8usize) } else { let j = ctx.prng.gen_range(0..9); let mut k = ctx.prng.gen_range(0..9); if k == j { k = (j + 1) % 9; } (j, k) };
+                let mut ps = run.proofs.clone();
+                ps[k].s1 = ps[j].s1; ps[k].s2 = ps[j].s2;
+                let _ = range_verify_check(ctx, &rp, &rpd, &ps, &run.c, &expected, Some(false), "digit-signature-copied-from-another-digit");
+                let dz = nonzero(&mut ctx.prng);
+                ps[k].cp.zs[0] += dz;
+                let zs: Vec<Scalar> = ps.iter().map(|p| p.cp.zs[0]).collect();
+                let _ = range_verify_check(ctx, &rp, &rpd, &ps, &run.c, &weighted(&zs), Some(false), "digit-signature-copied-and-response-chosen");
             }
             // two positions presenting the SAME published signature under the SAME re-randomiser, claiming d+e and d-e
             for t in 0..(if ctx.thorough() { 20 } else { 4 }) {
@@ -270,6 +315,14 @@ pub fn run(ctx: &mut Ctx) {
         d.sigs[i].1 += dev;
         d.sigs[k].1 -= dev;
         validate_check(ctx, &d, Some(false), "cancelling-pair");
+        // ... and whose deviations cancel in a batch with deterministic public weights (index-based, powers of 2 / 128)
+        for (fam, wi, wk) in pair_weights(i, k, 128, None) {
+            let mut d = rpd.clone();
+            d.sigs[i].1 += wk * dev;
+            d.sigs[k].1 -= wi * dev;
+            ctx.count(&format!("validate:weighted-cancelling-pair:{}", fam));
+            validate_check(ctx, &d, Some(false), "weighted-cancelling-pair");
+        }
         // swapped neighbours
         let mut d = rpd.clone();
         d.sigs.swap(i, k);
